@@ -436,7 +436,16 @@ def run_prior(plan, cov, events):
     cov["prior_random_checked"] += 1
     return sig
   e = rel_err(M, M_exp)
-  if e > 1e-7:
+  tol_v = 1e-7
+  if opt == "covariance":
+    # forward error of an inverse grows with the condition number of the covariance
+    wv = np.linalg.eigvalsh((M_exp + M_exp.T) / 2)
+    condM = wv.max() / max(wv.min(), 1e-300)
+    if condM > 1e13:
+      raise Inconclusive("covariance_too_ill_conditioned")
+    tol_v = 1e-7 + 200 * np.finfo(float).eps * condM
+    cov["prior_cov_wide_spectrum"] += int(condM > 1e8)
+  if e > tol_v:
     raise Violation("prior", sig + ",value",
                     "learned matrix with untouched constraints should equal the %s prior: relative %.3g"
                     % (opt, e))
@@ -584,6 +593,8 @@ def gen_plan(seed, tier):
     desc["tuples"] = r.randint(12, 30)
     if r.random() < 0.15:
       desc["kind"] = "lowrank"
+    elif r.random() < 0.3:
+      desc["scale"] = r.choice([2, 3])     # feature scales over 4-6 orders of magnitude
     plan.update(dataset=desc, learner=r.choice(["ITML", "ITML", "LSML", "LSML", "SDML", "MMC"]),
                 option=r.choice(["identity", "covariance", "covariance", "random", "random", "array", "array",
                                  "singular", "indefinite", "nonsym", "wrongshape"]),
